@@ -248,6 +248,12 @@ func c19() {
 		}
 		u := jobs[i]
 		sub := storyOps(u, true)
+		// pre-validated submission (the checkpoint-sync path) of single v2 blocks, duplicates of pruned ones included
+		for k := 1; k < len(u.Nodes); k++ {
+			if u.Nodes[k].Valid && u.Nodes[k].Block.V2 != nil {
+				sub = append(sub, submitOp{"validated", []int{k}})
+			}
+		}
 		res := bfs.Run(bfs.Config{
 			New: func() bfs.World { return &pruneWorld{u: u, n: node.New(u), tw: node.New(u)} },
 			Ops: func(w bfs.World, _ int) []bfs.Op {
@@ -282,7 +288,7 @@ func c19() {
 	run.DistinctN = run.States
 	run.Extra["universes"] = len(jobs)
 	run.Extra["universes_fully_explored"] = fix
-	run.Rule = "comb universes (6-block main path with heavier forks at heights 1,3,5) and all 3/4-block fork shapes on a 2-block trunk x 3 regimes; ops: submit path up to any node, single blocks (incl. duplicates of pruned blocks), PruneBlocks(h) for h in {0,1,2,3,tip-1,tip,tip+1,tip+5}; BFS to the depth bound; an unpruned twin receives the same submissions; distinct = distinct (pruned node, twin) state pairs"
+	run.Rule = "comb universes (6-block main path with heavier forks at heights 1,3,5) and all 3/4-block fork shapes on a 2-block trunk x 3 regimes; ops: submit path up to any node, single blocks through AddBlocks and (v2 blocks) through AddValidatedV2Blocks (incl. duplicates of pruned blocks), PruneBlocks(h) for h in {0,1,2,3,tip-1,tip,tip+1,tip+5}; BFS to the depth bound; an unpruned twin receives the same submissions; distinct = distinct (pruned node, twin) state pairs"
 	run.Explanation = fmt.Sprintf("depth bound %d (comb: one less); after every op: best-chain audit against the reference replay, bodies below the prune height gone and all others kept, State/Header/BestIndex intact, tip state and History equal to the twin, MinReorgIndex equals the lowest height with all bodies up to the tip, reorgs with fork point at/above it behave like the twin, below it fail without panic and without changing the store, requests needing pruned bodies return errors.", depth)
 	run.Assumptions = []string{"reference = go.sia.tech/core replay and an unpruned twin of the same implementation"}
 }
